@@ -155,6 +155,12 @@ def gen_case(rnd, cname, prop, shape=None):
     if errorish and cname in cc.NARY | cc.BINARY and n >= 2 and rnd.random() < 0.5:
         other = tuple(reversed(shape)) if len(shape) > 1 and shape != tuple(reversed(shape)) else (shape[0] + 1,) + tuple(shape[1:])
         arrays[rnd.randrange(1, n)] = gen_array(rnd, other, dts[-1], fuzzy, mask_p)
+        if n >= 3 and rnd.random() < 0.5:
+            # three pairwise different shapes among the inputs
+            third = (shape[0] + 2,) + tuple(shape[1:]) if rnd.random() < 0.5 else tuple(shape) + (2,)
+            free = [i for i in range(n) if arrays[i].shape == tuple(shape)]
+            if len(free) >= 2:
+                arrays[free[-1]] = gen_array(rnd, third, dts[-1], fuzzy, mask_p)
     elif errorish and cname in cc.NARY and rnd.random() < 0.3:
         arrays = []
         n = 0
@@ -215,9 +221,9 @@ def gen_case(rnd, cname, prop, shape=None):
         p["NormalValues" if cname.startswith("Normalize") else "FuzzyValues"] = [rnum(rnd, *rng) for _ in range(k)]
     elif cname == "CvtToFuzzy":
         if rnd.random() < 0.7:
-            p["TrueThreshold"] = rnum(rnd)
+            p["TrueThreshold"] = rnd.choice([0, 0.0]) if rnd.random() < 0.15 else rnum(rnd)
         if rnd.random() < 0.7:
-            p["FalseThreshold"] = rnum(rnd)
+            p["FalseThreshold"] = rnd.choice([0, 0.0]) if rnd.random() < 0.15 else rnum(rnd)
         r = rnd.random()
         if r < 0.3:
             p["Direction"] = "LowToHigh"
